@@ -174,6 +174,11 @@ def hp_types(agent):
     return {n: type(getattr(a, n)).__name__ for n in dict.fromkeys(names) if hasattr(a, n)}
 
 
+def _neq(a, b):
+    """inequality of (nested) numbers in which NaN equals NaN (extreme weights make outputs overflow identically on both agents)"""
+    return json.dumps(a, default=str) != json.dumps(b, default=str)
+
+
 def _file_hash(path):
     import hashlib
     with open(path, "rb") as f:
@@ -436,7 +441,6 @@ class C07(vlib.Driver):
                 fam = ["vector", "image", "discrete", "dict"][n_ % 4]
                 add(algo, fam, algo in evo.SHARE_CAPABLE and n_ % 2 == 0, "prelu", 0, 33,
                     ops=self.oneside_ops() if n_ % 2 == 0 else P("act", "arch", True, False, n_ % 2, True))
-                add(algo, "vector", False, "full", 0, 34, ops=self.oneside_ops())
             add("DQN", "image", False, "full", 0, 25, ops=self.bound_ops())
             add("PPO", "vector", True, "full", 0, 26, ops=self.bound_ops())
             add("MADDPG", "vector", False, "full", 0, 27, ops=self.bound_ops())
@@ -781,7 +785,7 @@ class C07(vlib.Driver):
             if k == "act" and rec.get("pair"):
                 p, c = rec["pair"]
                 path2 = self._origin(case, t, c) or "loop"
-                if self._policy_equal(states[t - 1][p], states[t - 1][c], reg) and recs[t - 1].get("action") != rec.get("action"):
+                if self._policy_equal(states[t - 1][p], states[t - 1][c], reg) and _neq(recs[t - 1].get("action"), rec.get("action")):
                     out.append(Violation("behaviour", sig("greedy", path2, "action"),
                                          f"{what}: agent #{p} and the agent #{c} restored from its checkpoint (equal policy weights) choose different "
                                          f"greedy actions {recs[t - 1].get('action')} vs {rec.get('action')}"))
@@ -793,7 +797,7 @@ class C07(vlib.Driver):
                     ap, ac = after[p], after[c]
                     diff = [(x[0], x[1]) for x, y in zip(ap["slots"], ac["slots"]) if x[3] != y[3]]
                     lp, lc = recs[t - 1].get("loss"), rec.get("loss")
-                    if diff or lp != lc:
+                    if diff or _neq(lp, lc):
                         out.append(Violation("behaviour", sig("update", path2, diff[0][1] if diff else "loss"),
                                              f"{what}: agent #{p} and the value-identical agent #{c} restored from its checkpoint computed different "
                                              f"updates from the same batch: losses {lp} vs {lc}; differing slots {[d[0] for d in diff[:6]]}"))
